@@ -463,3 +463,17 @@ func SSAName(f *ssa.Function) string {
 	s = strings.ReplaceAll(s, ModPath, ".")
 	return s
 }
+
+// RecvNamedOfField reports whether f is a (direct) field of struct type t.
+func RecvNamedOfField(t *types.Named, f *types.Var) bool {
+	st, ok := t.Underlying().(*types.Struct)
+	if !ok {
+		return false
+	}
+	for i := 0; i < st.NumFields(); i++ {
+		if st.Field(i) == f {
+			return true
+		}
+	}
+	return false
+}
